@@ -4,7 +4,7 @@ ENTRY = {
     "builds": [("harness_c09", "verif,c09"), ("harness_c09_race", "verif,c09")],
     "models": ["Conc/CacheModel.v (hand-written small-step interleaving machine of the codec caches: json/codec.go cache/cacheLoad/cacheStore/constructCachedCodec/constructStructType, "
                "proto/proto.go codecCache/cachedCodecOf, proto/reflect.go TypeOf/typesMutex/typesCache, thrift/encode.go encoderCache, thrift/decode.go decoderCache)",
-               "Conc/PoolModel.v (sync.Pool as a bag with runtime-chosen Get and arbitrary drops)"],
+               "Conc/DrfSpec.v (event log, happens-before, race_free)", "Conc/PoolModel.v (sync.Pool as a bag with runtime-chosen Get and arbitrary drops)"],
     "rule": "Concurrency (both the plain and the -race build): every scenario runs in freshly started child processes (cold caches). Per scenario group one seed fixes the tasks: per round 9 shared FRESH types "
             "(reflect.StructOf types made unique by a salt tag; named recursive types wrapped in salted structs; in round 0 the named recursive types themselves) used by all goroutines at once plus 48 private fresh types, "
             "shared builtin map types with 1..40 keys (sort scratch pool), tokenizer documents (stack pool), Encoder (buffer pool); calls json.Marshal/Unmarshal/NewEncoder.Encode/NewDecoder.Decode/NewTokenizer, "
@@ -19,7 +19,7 @@ ENTRY = {
     "trusted_base": COMMON_TB + [
         "Conc/CacheModel.v is a hand-written abstraction: a codec / Type / closure is an object with an identity, the type it was built for, links to component objects and a done flag; what a codec does with a value is taken to be a function of the unfolding of that graph. "
         "Atomic steps are placed exactly at atomic.Pointer/atomic.Value Load and Store and Mutex Lock/Unlock; every other step is thread-local. The Go memory model itself is NOT modelled: that an atomic store / load pair (and Unlock / Lock) orders the plain "
-        "accesses before the store before those after the load is taken from the Go memory model; the theorems give the premises of that argument (writes only to unpublished objects owned by the writer, published objects frozen, reads only of published maps obtained by an atomic load).",
+        "accesses before the store before those after the load is taken from the Go memory model: it is the definition of hb in Conc/DrfSpec.v (hb_ptr, hb_mutex); theorem drf proves that under this definition no schedule of the machine has a data race.",
         "The race detector reports only races of the interleavings that were executed, and only on instrumented Go code (not on assembly in segmentio/asm); a clean run is evidence, not proof.",
         "sync.Pool's runtime behaviour (per-P caches, victim cache, GC) is abstracted to: Get returns any pooled object or a new one, pooled objects may vanish. The use-site discipline (Put only what Get returned, no use after Put, nothing reachable from the result handed to the caller) "
         "is established by READING the use sites, not by proof about the code: json/json.go Marshal (copies buf.data before Put; error path drops the buffer) and Encoder.Encode (Put after Writer.Write returned: relies on io.Writer not retaining p), "
@@ -39,6 +39,8 @@ CLAIM = {
     "text": "Theorems (Properties/C09.v) on the interleaving machine of the codec caches, for EVERY number of goroutines, every list of requested types per goroutine, every (recursive) type graph and EVERY schedule: "
             "every map ever published maps each key t to a complete object graph whose unfolding is codec_of t (never a half-built object of a seen map); every completed call returns codec_of t, which is what it returns running alone; "
             "a published map and everything reachable from it never change again; plain writes target only unpublished objects of the writing goroutine, plain reads only published maps, every returned object is an entry of a published map; "
+            "DATA-RACE FREEDOM of the machine: in the event log of every schedule any two conflicting accesses (same map, or same construction's objects including everything a caller reads through a returned codec) of different goroutines are ordered by "
+            "happens-before (program order + atomic store->load of the same map + Unlock->Lock, transitive), for the lock-free and the mutex variant; "
             "for proto.TypeOf additionally mutual exclusion, no lost update and one object per type for all goroutines; the lock-free caches lose updates and duplicate work by design (refutation witnesses) without affecting results. "
             "Pools: under the use-site discipline an object is held by at most one goroutine between Get and Put for every resolution of the runtime's choices; false without the discipline (witness). "
             "PARTIAL: the Go memory model, the runtime's sync.Pool and the actual encode/decode code running on the codecs are not modelled; data-race freedom of the real code is observed with the race detector over fresh and recursive types "
